@@ -95,13 +95,22 @@ theorem library_outputs_from_seed (cfg : Cfg) (resetDraws : List Nat) (evs : Lis
     inFamily cfg d.gen = true ∧ d.origin = famOrigin cfg d.gen :=
   (libTrace_run cfg resetDraws evs g).2.1 d hd
 
-/-- `env.seed(seed)` reaches the sub-environments at the first reset as `seed + i`; every later reset passes
-`None` (the generators keep running), whatever `_seeds` held before the model was built. -/
+/-- `env.seed(seed)` reaches the sub-environments at the first reset as `seed + i` TOGETHER WITH whatever reset
+options are pending there (`set_options` by the env constructor: any per-env pattern of options and empty
+entries) — pending options never displace the seed; every later reset passes `None` and no options (the
+generators keep running), whatever `_seeds` / `_options` held before the model was built. -/
 theorem env_seed_delivery (cfg : Cfg) (resetDraws : List Nat) (evs : List Ev) (g : RngState) :
     deliveries (libTrace cfg resetDraws evs) g =
-      (List.range cfg.nEnvs).map (fun i => some (cfg.seed + i)) ::
-        List.replicate (resetCount evs) (List.replicate cfg.nEnvs none) :=
+      (List.range cfg.nEnvs).map (fun i => (some (cfg.seed + i), g.options i)) ::
+        List.replicate (resetCount evs) (List.replicate cfg.nEnvs (none, none)) :=
   (libTrace_run cfg resetDraws evs g).2.2
+
+/-- Pending reset options are inert for the random state: the values at the draw sites and the generators after the
+run do not depend on them (in particular a sub-env with options pending is re-seeded exactly like one without). -/
+theorem pending_options_do_not_matter (cfg : Cfg) (resetDraws : List Nat) (evs : List Ev) (g : RngState)
+    (opts : List (Option Nat)) :
+    outputs (libTrace cfg resetDraws evs) (g.withOptions opts) = outputs (libTrace cfg resetDraws evs) g :=
+  library_run_noninterference cfg resetDraws evs _ _
 
 /-- Sub-environments get pairwise different streams. -/
 theorem sub_env_streams_distinct (cfg : Cfg) (i j : Nat) (h : i ≠ j) :
@@ -242,7 +251,15 @@ example : exampleCfgOU.noise ≠ .none := by decide
 example : (outputs (libTrace exampleCfg [2, 2] exampleEvents) (ambientState 3 (some 11))).length = 21 := by decide
 
 example : deliveries (libTrace exampleCfg [2, 2] exampleEvents) (ambientState 3 (some 11)) =
-    [[some 7, some 8], [none, none]] := by decide
+    [[(some 7, none), (some 8, none)], [(none, none), (none, none)]] := by decide
+
+/-- options pending for env 1 only (per-env list with an empty entry): the seeds still arrive -/
+example : deliveries (libTrace exampleCfg [2, 2] exampleEvents) ((ambientState 3 (some 11)).withOptions [none, some 5]) =
+    [[(some 7, none), (some 8, some 5)], [(none, none), (none, none)]] := by decide
+
+/-- a reset that passes the seed only when no options are pending (not the model's `envReset`) would leave env 1
+ambient: the trace in which env 1 is not re-seeded is rejected -/
+example : traceOK Low.bot [.seed .np 7, .envSeed 7 1, .envReset 2, .draw (.env 1) 1] = false := by decide
 
 /-- hypothesis of `seeded_noninterference` / `seeded_generators_agree_afterwards` -/
 example : traceOK Low.bot [.seed .np 3, .envSeed 3 2, .envReset 2, .draw .np 2, .draw (.env 1) 1] = true ∧
